@@ -1,22 +1,33 @@
 import Driver.CdrFileIO
+import Driver.DiamIO
 /-
   Line-protocol driver: one operation per input line, one canonical line per operation.
-  The first token selects the stream (model).  Imports models and specs only.
+  The first token selects the stream (model); stateful streams keep their state in `DState`.
+  Imports models and specs only.
 -/
 open Chf Chf.Driver
 
-def step (line : String) : String :=
-  match (line.trimAscii.toString.splitOn " ").filter (· ≠ "") with
-  | "cdrfile" :: t => cdrfileOp t
-  | _ => "bad-op"
+structure DState where
+  abmf : Abmf.Store := []
+  rf : List Rating.Tariff := []
 
-partial def loop (h : IO.FS.Stream) (out : IO.FS.Stream) : IO Unit := do
+def step (s : DState) (line : String) : DState × String :=
+  match (line.trimAscii.toString.splitOn " ").filter (· ≠ "") with
+  | "cdrfile" :: t => (s, cdrfileOp t)
+  | "abmf" :: t => let (a, o) := abmfOp s.abmf t; ({ s with abmf := a }, o)
+  | "rf" :: t => let (a, o) := rfOp s.rf t; ({ s with rf := a }, o)
+  | "abmfjudge" :: t => (s, abmfJudge t)
+  | "rfjudge" :: t => (s, rfJudge t)
+  | _ => (s, "bad-op")
+
+partial def loop (h : IO.FS.Stream) (out : IO.FS.Stream) (s : DState) : IO Unit := do
   let line ← h.getLine
   if line.isEmpty then return ()
-  out.putStrLn (step line)
-  loop h out
+  let (s', o) := step s line
+  out.putStrLn o
+  loop h out s'
 
 def main : IO Unit := do
   let out ← IO.getStdout
-  loop (← IO.getStdin) out
+  loop (← IO.getStdin) out {}
   out.flush
